@@ -118,10 +118,10 @@ class Report:
                               (c["rule"], c["control"], c["detail"]))
         # Instance floors guard against a rule that silently stopped matching (vacuous pass).  A count that
         # merely shrank - an edit merged two sites, hoisted a guard - is reported as a note; the rule is
-        # "broken" when it lost more than half of the instances confirmed by hand, or all of them.
+        # "broken" only when it matches nothing at all any more.
         for fl in self.floors:
             if fl["found"] < fl["floor"]:
-                hard = fl["floor"] > 0 and (fl["found"] == 0 or fl["found"] * 2 < fl["floor"])
+                hard = fl["floor"] > 0 and fl["found"] == 0
                 msg = "instance floor: %s found %d < %d confirmed by hand" % (fl["what"], fl["found"], fl["floor"])
                 if hard:
                     broken.append(msg)
